@@ -26,6 +26,25 @@ executed for every suffix over the alphabet.
 
 A crash-phase finding is reported only if the crash-free run of the same history does not already show the same
 (kind, file) at the same sync, so a crash-free defect is not reported once more per crash point under another name.
+
+Two further families are explored crash-free (no injection; the crash clause is about a rerun in a new process, which the
+family above covers):
+
+Sessions (class Session) -- ONE Kconfig instance runs several syncs.  A step = (same instance | new instance of a tree
+version) x configuration (the live instance is moved there with unset_value / set_value) x target directory (two
+directories) x what happened to that directory since its last sync: kept intact, auto.conf deleted (the .cdep files stay),
+emptied, removed; a directory that does not exist yet is new.  Reference: recorded = #define map of the last completed
+sync into THAT directory, nothing once its auto.conf is gone; touched .cdep set == changed(recorded, current) exactly,
+whatever the instance loaded or synced before -- i.e. what a fresh instance syncing into that directory state touches (the
+steps with a new instance are such fresh instances and are judged by the same reference).  A step that repeats the previous
+one (same directory kept intact, same tree and configuration) is an immediately repeated sync.
+
+Rename tables (run_table) -- every sequence of up to 3 (thorough 4) rename lines over 3 deprecated names x 3 targets
+(bool, bool inverted, int), so: several aliases per option, a deprecated name mapped again (identical line repeated,
+re-targeted to another option, inversion changed), in one rename file or with the re-mapping starting a second file.
+Own alias table = last mapping of each deprecated name (load_rename_files docstring: "the last mapping is used"), all
+other names unaffected.  Each table runs one fixed history (fresh instance per sync) in which each target appears, changes,
+is removed from the tree and comes back, with the crash-free oracle above.
 """
 
 from __future__ import annotations
@@ -40,23 +59,40 @@ from .. import common, faultfs, impl
 ID = "C12"
 LEVEL = "fault_enumeration"
 RULE = (
-    "all histories over states = (tree version, configuration): quick 12 states (2 trees x 6 configurations) ^ 3; thorough 24 states "
+    "(1) all histories over states = (tree version, configuration): quick 14 states (2 trees x 7 configurations) ^ 3; thorough 26 states "
     "(6 trees) ^ 3 plus 10 states ^ 4; one fresh Kconfig per sync; crash-free run of every history, then for every "
     "sync every crash point (before each mutating FS operation: mkdir per level, truncating touch, open(auto.conf,'w'); inside "
     "the auto.conf write at 0 / every line boundary / middle of last line / all-but-one byte), each on a fresh copy of the "
     "pre-state: crash, rerun, repeat, continue the history. State merging: a crash in sync i and its recovery depend only on the "
     "prefix h[:i+1], so they are executed once per distinct prefix; the repeat / continuation after a recovery are merged with "
     "the crash-free run of every history with that prefix when the recovered on-disk state is byte-identical to the crash-free "
-    "state (counters *_merged_*), otherwise executed for every suffix (*_executed). evaluations = executed (prefix, crash point) "
-    "pairs + crash-free histories + executed continuations. distinct_nontrivial counts distinct (changed set, touched set) pairs of crash-free syncs with a non-empty "
-    "changed set and distinct (crash operation, touched-in-crashed-run, touched-in-rerun, changed set) tuples of crashed syncs."
+    "state (counters *_merged_*), otherwise executed for every suffix (*_executed). "
+    "(2) sessions, crash-free: all sequences of 3 syncs (thorough also 4) in which every step after the first chooses {same instance, new "
+    "instance of a tree version} x configuration x {directory 0, directory 1} x {kept, auto.conf deleted, emptied, removed} (a "
+    "directory that does not exist is new); quick 1 tree x 4 configurations, thorough 2 trees x 7 configurations ^ 3 "
+    "plus 1 tree x 3 configurations ^ 4; one work item per (first, second) step, every session re-executed from its first step "
+    "(counter session_syncs). (3) rename tables, crash-free: every sequence of 1..3 (thorough 1..4) rename lines over 3 deprecated names "
+    "(up to renaming: in order of first use) x 3 targets (bool, inverted bool, int), as one file and -- if a name is mapped again -- "
+    "split into two files at the re-mapping, each under one 5-sync history (target appears / changes / is removed from the tree / "
+    "comes back; counter rename_table_runs). "
+    "evaluations = executed (prefix, crash point) pairs + crash-free histories + executed continuations + sessions + rename-table "
+    "histories. distinct_nontrivial counts distinct (changed set, touched set) pairs of crash-free syncs with a non-empty "
+    "changed set, distinct (crash operation, touched-in-crashed-run, touched-in-rerun, changed set) tuples of crashed syncs and distinct "
+    "(instance fresh / synced before, directory state, changed set, touched set) tuples of session syncs."
 )
 ASSUMPTIONS = [
     "build-visible value of an option = its #define line in write_autoconf() output (differential on the implementation); an "
-    "alias changes iff its replacement changes; the rename table is the same for all tree versions",
+    "alias changes iff its replacement changes; the rename table is the same for all tree versions of one history; a deprecated "
+    "name that is mapped more than once has its LAST mapping only (load_rename_files docstring), the other names keep theirs; "
+    "targets of rename lines are options of some tree version, deprecated names are never options or targets",
     "crash model: process death; completed operations persist on tmpfs, no reordering; each write() reaches the file as a "
     "prefix at the enumerated cut points; directories' own mtimes are not observed",
-    "configurations are entered with Symbol.set_value on a fresh instance; every sync (also the rerun after a crash) is a new instance",
+    "configurations are entered with Symbol.set_value on a fresh instance; in families (1) and (3) every sync (also the rerun after a "
+    "crash) is a new instance; in a session the one instance is moved to the next configuration with unset_value / set_value and "
+    "the expected #define map is read from a twin instance taken through the same calls",
+    "sessions: 'value recorded by the last completed sync' is per dependency directory and is what its auto.conf holds: after "
+    "auto.conf was deleted / the directory emptied or removed, and for a new directory, nothing is recorded, so every option "
+    "with a build-visible value (and its aliases) must be touched, exactly as for a first sync; sessions are not crash-injected",
 ]
 
 EPOCH_NS = 1_000_000_000 * 10**9
@@ -108,8 +144,16 @@ def tree_text(ver: str) -> str:
     return "\n".join(out)
 
 
-def tree_files(ver: str) -> Dict[str, str]:
-    return {"Kconfig": tree_text(ver), "sdkconfig.rename": RENAMES}
+def tree_files(ver: str, rename_texts: Optional[List[str]] = None) -> Dict[str, str]:
+    """program files of a tree version; rename_texts: the texts of the sdkconfig.rename files (default: [RENAMES])"""
+    files = {"Kconfig": tree_text(ver)}
+    for name, text in zip(rename_file_names(len(rename_texts or [RENAMES])), rename_texts or [RENAMES]):
+        files[name] = text
+    return files
+
+
+def rename_file_names(n: int) -> List[str]:
+    return ["sdkconfig.rename"] + [f"sdkconfig.rename.{i}" for i in range(2, n + 1)]
 
 
 CONFIGS_QUICK = [
@@ -132,8 +176,17 @@ LONG_STATES = [(v, c) for v in ("base", "all") for c in (0, 1, 2, 4, 5)]
 ALPHABETS = {"quick": QUICK_STATES, "wide": WIDE_STATES, "long": LONG_STATES}
 
 
+# sessions (one instance, several syncs): tree versions a new instance may have, configuration indices, number of syncs
+SESSIONS = {
+    "quick": [(["base"], [0, 1, 3, 4], 3)],
+    "thorough": [(["base", "all"], list(range(len(CONFIGS_QUICK))), 3), (["base"], [0, 1, 4], 4)],
+}
+TABLE_LINES = {"quick": 3, "thorough": 4}
+
+
 def items(tier: str, seed: int):
     out = []
+    t = "quick" if tier == "quick" else "thorough"
     if tier == "quick":
         for h in itertools.product(QUICK_STATES, repeat=3):
             out.append({"history": list(h), "alphabet": "quick"})
@@ -142,6 +195,11 @@ def items(tier: str, seed: int):
             out.append({"history": list(h), "alphabet": "wide"})
         for h in itertools.product(LONG_STATES, repeat=4):
             out.append({"history": list(h), "alphabet": "long"})
+    for k, (vers, cfgs, length) in enumerate(SESSIONS[t]):
+        for pre in session_prefixes(vers, cfgs):
+            out.append({"kind": "sessions", "prefix": pre, "space": [t, k]})
+    for lines in rename_tables(TABLE_LINES[t]):
+        out.append({"kind": "table", "lines": [list(l) for l in lines]})
     return out
 
 
@@ -157,35 +215,67 @@ def cdep(name: str) -> str:
     return name.lower().replace("_", "/") + ".cdep"
 
 
+_HDR: Dict[str, Dict[str, str]] = {}
+
+
 class World:
     """Everything a history needs: tree texts per version, alias table, scratch directory."""
 
-    def __init__(self, versions: Dict[str, Dict[str, str]], aliases: Dict[str, Any]):
+    def __init__(self, versions: Dict[str, Dict[str, str]], aliases: Dict[str, Any], rename_files: Optional[List[str]] = None):
         self.versions = versions
+        self.rename_files = list(rename_files or ["sdkconfig.rename"])  # loaded in this order by every instance
         self.aliases = {a: (t[0], bool(t[1])) for a, t in aliases.items()}
         self.by_target: Dict[str, List[str]] = {}
         for a in sorted(self.aliases):
             self.by_target.setdefault(self.aliases[a][0], []).append(a)
         self.types = {v: dict(_CFGDECL.findall(f["Kconfig"])) for v, f in versions.items()}
         self.dir = os.path.join(impl.wdir(), "c12deps")
-        self._hdr: Dict[str, Dict[str, str]] = {}
+        self.sess_root = os.path.join(impl.wdir(), "c12sess")  # parent of the dependency directories of a session
+
+    def bare(self, ver: str):
+        """fresh instance of a tree version, rename files loaded, nothing assigned"""
+        i = impl.Inst(self.versions[ver])
+        i.k.load_rename_files([os.path.join(os.path.dirname(i.path), f) for f in self.rename_files])
+        return i
+
+    @staticmethod
+    def move(k, cur: Dict[str, str], cfg: Dict[str, str]) -> None:
+        """takes a live instance from the assignment cur to the assignment cfg: unset_value() for every name assigned in cur
+        only, set_value() for every name whose assignment differs (names the tree does not define are skipped)"""
+        for name in sorted(cur):
+            if name not in cfg:
+                s = k.syms.get(name)
+                if s is not None and s.nodes:
+                    s.unset_value()
+        for name in sorted(cfg):
+            if cur.get(name) != cfg[name]:
+                s = k.syms.get(name)
+                if s is not None and s.nodes:
+                    s.set_value(cfg[name])
 
     def inst(self, ver: str, cfg: Dict[str, str]):
-        i = impl.Inst(self.versions[ver])
-        k = i.k
-        k.load_rename_files([os.path.join(os.path.dirname(i.path), "sdkconfig.rename")])
-        for name in sorted(cfg):
-            s = k.syms.get(name)
-            if s is not None and s.nodes:
-                s.set_value(cfg[name])
+        i = self.bare(ver)
+        self.move(i.k, {}, cfg)
         return i
 
     def header(self, ver: str, cfg: Dict[str, str]) -> Dict[str, str]:
-        key = repr((ver, sorted(cfg.items())))
-        h = self._hdr.get(key)
+        return self.header_seq(ver, [cfg])
+
+    def header_seq(self, ver: str, cfgs: List[Dict[str, str]]) -> Dict[str, str]:
+        """#define map of a TWIN instance that was taken through the assignments cfgs one after the other (the way a session
+        moves its one instance); the header does not depend on the rename files, so the cache is keyed by the tree text"""
+        key = repr((self.versions[ver]["Kconfig"], [sorted(c.items()) for c in cfgs]))
+        h = _HDR.get(key)
         if h is None:
-            h = dict(_DEFINE.findall(self.inst(ver, cfg).header_text()))
-            self._hdr[key] = h
+            i = self.bare(ver)
+            cur: Dict[str, str] = {}
+            for c in cfgs:
+                self.move(i.k, cur, c)
+                cur = c
+            h = dict(_DEFINE.findall(i.header_text()))
+            if len(_HDR) > 20000:
+                _HDR.clear()
+            _HDR[key] = h
         return h
 
     def sync(self, ver: str, cfg: Dict[str, str]) -> None:
@@ -291,8 +381,9 @@ class Run:
     """One history.  All findings go through self.find(); crash-phase findings already present in the crash-free run
     at the same sync are dropped."""
 
-    def __init__(self, w: World, history: List[Tuple[str, Dict[str, str]]], r: common.Result):
+    def __init__(self, w: World, history: List[Tuple[str, Dict[str, str]]], r: common.Result, sig_extra: Optional[dict] = None):
         self.w, self.h, self.r = w, history, r
+        self.sig_extra = dict(sig_extra or {})  # construct named in every signature of this run (rename-table family)
         self.siblings: Dict[tuple, "Run"] = {}
         self.hdrs = [w.header(v, c) for v, c in history]
         self.free_keys: List[set] = [set() for _ in history]
@@ -311,8 +402,11 @@ class Run:
     def case(self, upto: int, crash: Optional[dict]) -> dict:
         c: Dict[str, Any] = {"versions": {v: self.w.versions[v] for v in sorted({v for v, _ in self.h[: upto + 1]})}}
         c["aliases"] = {a: list(t) for a, t in sorted(self.w.aliases.items())}
+        c["rename_files"] = list(self.w.rename_files)
         c["history"] = [[v, cfg] for v, cfg in self.h[: upto + 1]]
         c["crash"] = crash
+        if self.sig_extra:
+            c["sig_extra"] = self.sig_extra
         return c
 
     def find(self, step: int, key: tuple, sig: dict, msg: str, crash: Optional[dict]) -> None:
@@ -320,7 +414,7 @@ class Run:
             self.free_keys[step].add(key)
         elif key in self.free_keys[step]:
             return
-        self.r.violation(sig, msg, self.case(step, crash))
+        self.r.violation({**sig, **self.sig_extra}, msg, self.case(step, crash))
 
     def prev_of(self, i: int) -> Tuple[Optional[str], Optional[Dict[str, str]]]:
         return (self.h[i - 1][0], self.hdrs[i - 1]) if i > 0 else (None, None)
@@ -518,6 +612,259 @@ def _is_line_boundary(data: Optional[bytes], c: int) -> bool:
 
 
 # --------------------------------------------------------------------------------------------------
+# sessions: ONE instance runs several syncs; dependency directories are intact / emptied / removed / new between them
+# --------------------------------------------------------------------------------------------------
+
+EVENTS = ("keep", "rm_autoconf", "empty", "rmtree")
+
+
+def step_alphabet(exists: Tuple[bool, bool], insts: List[Tuple[str, Optional[str]]], cfgs: List[int]) -> List[dict]:
+    """every step after the first: (same | new instance of a tree version) x (target directory, what happened to it since
+    the last sync: an existing directory is kept / loses auto.conf / is emptied / is removed, a directory that does not
+    exist can only be new) x configuration"""
+    out = []
+    for inst, ver in insts:
+        for d in (0, 1):
+            for ev in EVENTS if exists[d] else ("keep",):
+                for c in cfgs:
+                    out.append({"inst": inst, "ver": ver, "cfg": c, "dir": d, "event": ev})
+    return out
+
+
+def session_prefixes(vers: List[str], cfgs: List[int]) -> List[List[dict]]:
+    """all (first step, second step) pairs: the first step is a new instance syncing into the (new) directory 0"""
+    insts = [("same", None)] + [("new", v) for v in vers]
+    out = []
+    for v in vers:
+        for c in cfgs:
+            first = {"inst": "new", "ver": v, "cfg": c, "dir": 0, "event": "keep"}
+            for st in step_alphabet((True, False), insts, cfgs):
+                out.append([first, st])
+    return out
+
+
+def session_suffixes(prefix: List[dict], length: int, vers: List[str], cfgs: List[int]) -> List[List[dict]]:
+    insts = [("same", None)] + [("new", v) for v in vers]
+
+    def rec(steps: List[dict]) -> List[List[dict]]:
+        if len(steps) == length:
+            return [steps]
+        exists = (True, any(s["dir"] == 1 for s in steps))
+        out: List[List[dict]] = []
+        for st in step_alphabet(exists, insts, cfgs):
+            out.extend(rec(steps + [st]))
+        return out
+
+    return rec(list(prefix))
+
+
+def apply_event(d: str, ev: str) -> str:
+    """performs the event on directory d (outside the interposed region); returns the state the sync finds"""
+    import shutil
+
+    if not os.path.isdir(d):
+        return "new"
+    if ev == "keep":
+        return "intact"
+    if ev == "rm_autoconf":
+        try:
+            os.unlink(os.path.join(d, "auto.conf"))
+        except FileNotFoundError:
+            pass
+        return "autoconf_removed"
+    if ev == "empty":
+        for name in sorted(os.listdir(d)):
+            p = os.path.join(d, name)
+            if os.path.isdir(p) and not os.path.islink(p):
+                shutil.rmtree(p)
+            else:
+                os.unlink(p)
+        return "emptied"
+    if ev == "rmtree":
+        shutil.rmtree(d)
+        return "removed"
+    raise ValueError(ev)
+
+
+class Session:
+    """steps: [{"inst": "new"|"same", "ver": tree version of a new instance, "cfg": assignment dict, "dir": 0|1, "event": ...}]
+
+    Reference per step: recorded = #define map of the last completed sync INTO THE TARGET DIRECTORY, None once its auto.conf
+    is gone (removed / emptied / auto.conf deleted) or if the directory is new; the touched .cdep set of the step must be
+    exactly World.changed(recorded, current), whatever the instance synced before -- i.e. what a fresh instance syncing
+    into that directory state touches (the steps with inst == "new" are those fresh instances, judged by the same
+    reference).  A step that repeats the previous step (same directory, kept, same tree version and assignment) is an
+    immediately repeated sync: no mutating operation, nothing touched, auto.conf's inode kept.  The current #define map
+    comes from a twin instance taken through the same assignments (World.header_seq), never from the observed one."""
+
+    def __init__(self, w: World, steps: List[dict], r: common.Result):
+        self.w, self.steps, self.r = w, steps, r
+
+    def case(self, upto: int) -> dict:
+        vers = sorted({s["ver"] for s in self.steps[: upto + 1] if s["inst"] == "new"})
+        return {
+            "kind": "session",
+            "versions": {v: self.w.versions[v] for v in vers},
+            "aliases": {a: list(t) for a, t in sorted(self.w.aliases.items())},
+            "rename_files": list(self.w.rename_files),
+            "steps": [dict(s) for s in self.steps[: upto + 1]],
+        }
+
+    def describe(self, upto: int) -> str:
+        return " ; ".join(
+            f"[{'new ' + s['ver'] if s['inst'] == 'new' else 'same'} instance {s['cfg']} -> d{s['dir']}{'' if s['event'] == 'keep' else ' after ' + s['event']}]"
+            for s in self.steps[: upto + 1]
+        )
+
+    def run(self) -> None:
+        import shutil
+
+        w, r = self.w, self.r
+        root = w.sess_root
+        if os.path.lexists(root):
+            shutil.rmtree(root)
+        os.mkdir(root)
+        inst = None
+        ver: Optional[str] = None
+        seq: List[Dict[str, str]] = []  # assignments the current instance went through
+        n_inst_syncs = 0
+        rec: Dict[int, Optional[tuple]] = {0: None, 1: None}  # dir -> (version, #define map) of the last completed sync
+        last: Optional[tuple] = None  # (dir, version, assignment) of the previous step
+        for j, st in enumerate(self.steps):
+            d = os.path.join(root, f"d{st['dir']}")
+            dstate = apply_event(d, st["event"])
+            if dstate != "intact":
+                rec[st["dir"]] = None
+            if st["inst"] == "new":
+                ver, seq, n_inst_syncs = st["ver"], [], 0
+                inst = w.bare(ver)
+            assert inst is not None and ver is not None
+            cfg = dict(st["cfg"])
+            w.move(inst.k, seq[-1] if seq else {}, cfg)
+            seq.append(cfg)
+            cur = w.header_seq(ver, seq)
+            pver, prev = rec[st["dir"]] if rec[st["dir"]] is not None else (None, None)
+            extra = {"phase": "session", "instance": "fresh" if n_inst_syncs == 0 else "synced_before", "dir_state": dstate}
+            is_repeat = dstate == "intact" and last == (st["dir"], ver, sorted(cfg.items()))
+            ac = os.path.join(d, "auto.conf")
+            ino = os.stat(ac).st_ino if os.path.exists(ac) else None
+            try:
+                with faultfs.FaultFS(root) as fs:
+                    inst.k.sync_deps(d)
+            except Exception as e:  # noqa: BLE001 -- observation
+                s = site_of(e)
+                r.violation({"kind": "exception", "exc": type(e).__name__, "site": s, **extra},
+                            f"sync #{j} of session {self.describe(j)} raised {type(e).__name__}: {e} at {s}", self.case(j))
+                return
+            n_inst_syncs += 1
+            r.count("session_syncs")
+            touched = observe(d)
+            got = [p for p in touched if p != "auto.conf"]
+            want = w.changed(prev, cur)
+            for p in sorted(set(want) - set(got)):
+                cl = w.classify(p, pver, ver, prev, cur)
+                r.violation({"kind": "changed_not_touched", "site": "core.py:sync_deps", **cl, **extra},
+                            f"sync #{j} of session {self.describe(j)}: {want[p]} differs from what the last completed sync into that directory recorded "
+                            f"({cl['value_change']}, {cl['tree_change']}; directory {dstate}) but {p} was not touched (touched: {got})", self.case(j))
+            for p in sorted(set(got) - set(want)):
+                cl = w.classify(p, pver, ver, prev, cur)
+                r.violation({"kind": "unchanged_touched", "site": "core.py:sync_deps", **cl, **extra},
+                            f"sync #{j} of session {self.describe(j)}: {p} was touched although its option did not change (directory {dstate})", self.case(j))
+            if is_repeat:
+                r.count("session_repeat_syncs")
+                ino2 = os.stat(ac).st_ino if os.path.exists(ac) else None
+                if touched or fs.log or ino != ino2:
+                    what = sorted({"auto.conf" if p == "auto.conf" else "cdep" for p in touched} | {o["op"] + ":" + ("auto.conf" if o["path"].endswith("auto.conf") else "other") for o in fs.log})
+                    r.violation({"kind": "repeat_sync_touches", "site": "core.py:sync_deps", "what": "+".join(what), **extra},
+                                f"immediately repeated sync #{j} of session {self.describe(j)} touched {touched} (operations {[(o['op'], o['path']) for o in fs.log]})", self.case(j))
+            if want or dstate != "intact":
+                r.outcome(("session", extra["instance"], dstate, tuple(sorted(want)), tuple(got)))
+            rec[st["dir"]] = (ver, cur)
+            last = (st["dir"], ver, sorted(cfg.items()))
+        r.evals += 1
+
+
+# --------------------------------------------------------------------------------------------------
+# rename tables: several aliases per option, deprecated names mapped more than once (re-targeted / repeated), several files
+# --------------------------------------------------------------------------------------------------
+
+TABLE_OLD = ("OLDA", "OLD_B", "OLDC")
+TABLE_TARGETS = (("NEWP", False), ("NEWP", True), ("M", False))  # bool, bool inverted, int -- all removed by tree "rm_alias"
+# fresh instance per sync: NEWP appears; M changes; both options are removed from the tree; M comes back with another value
+TABLE_HISTORY = [("base", {}), ("base", {"NEWP": "y"}), ("base", {"NEWP": "y", "M": "9"}), ("rm_alias", {}), ("base", {"M": "9"})]
+
+
+def _growth_strings(n: int, k: int) -> List[Tuple[int, ...]]:
+    """restricted growth strings of length n over at most k symbols (deprecated names up to renaming)"""
+    out: List[Tuple[int, ...]] = []
+
+    def rec(pre: Tuple[int, ...], mx: int) -> None:
+        if len(pre) == n:
+            out.append(pre)
+            return
+        for x in range(min(mx + 1, k - 1) + 1):
+            rec(pre + (x,), max(mx, x))
+
+    rec((), -1)
+    return out
+
+
+def rename_tables(max_lines: int) -> List[List[Tuple[str, str, bool]]]:
+    """every sequence of 1..max_lines rename lines (deprecated name, target, inverted) over TABLE_OLD x TABLE_TARGETS, the
+    deprecated names in order of first use"""
+    out = []
+    for n in range(1, max_lines + 1):
+        for g in _growth_strings(n, len(TABLE_OLD)):
+            for ts in itertools.product(TABLE_TARGETS, repeat=n):
+                out.append([(TABLE_OLD[o], t, inv) for o, (t, inv) in zip(g, ts)])
+    return out
+
+
+def table_line(line: Tuple[str, str, bool]) -> str:
+    old, new, inv = line
+    return f"CONFIG_{old} {'!' if inv else ''}CONFIG_{new}\n"
+
+
+def effective_aliases(lines: List[Tuple[str, str, bool]]) -> Dict[str, Tuple[str, bool]]:
+    """documented: 'the last mapping is used' for a deprecated name that occurs more than once; other names are unaffected"""
+    out: Dict[str, Tuple[str, bool]] = {}
+    for old, new, inv in lines:
+        out[old] = (new, inv)
+    return out
+
+
+def table_class(lines: List[Tuple[str, str, bool]]) -> str:
+    seen: Dict[str, Tuple[str, bool]] = {}
+    kinds = set()
+    for old, new, inv in lines:
+        if old in seen:
+            kinds.add("repeated_line" if seen[old] == (new, inv) else "inversion_changed" if seen[old][0] == new else "retargeted")
+        seen[old] = (new, inv)
+    return "+".join(sorted(kinds)) if kinds else "unique_names"
+
+
+def table_splits(lines: List[Tuple[str, str, bool]]) -> List[int]:
+    """one rename file, and -- if a deprecated name occurs again -- a second file starting at its first re-mapping"""
+    seen = set()
+    for i, (old, _, _) in enumerate(lines):
+        if old in seen:
+            return [0, i]
+        seen.add(old)
+    return [0]
+
+
+def run_table(lines: List[Tuple[str, str, bool]], split: int, r: common.Result) -> "Run":
+    lines = [(o, t, bool(i)) for o, t, i in lines]
+    texts = ["".join(table_line(l) for l in lines)] if not split else ["".join(table_line(l) for l in lines[:split]), "".join(table_line(l) for l in lines[split:])]
+    vers = sorted({v for v, _ in TABLE_HISTORY})
+    w = World({v: tree_files(v, texts) for v in vers}, effective_aliases(lines), rename_file_names(len(texts)))
+    run = Run(w, [(v, dict(c)) for v, c in TABLE_HISTORY], r, {"rename_table": table_class(lines), "rename_files": len(texts)})
+    run.crash_free()
+    r.count("rename_table_runs")
+    return run
+
+
+# --------------------------------------------------------------------------------------------------
 
 _world: Optional[World] = None
 
@@ -533,6 +880,26 @@ def run_item(item) -> common.Result:
     r = common.Result()
     r.programs = 1
     w = world()
+    kind = item.get("kind", "history")
+    if kind == "sessions":
+        vers, cfgs, length = SESSIONS[item["space"][0]][item["space"][1]]
+        sample = None
+        for steps in session_suffixes(item["prefix"], length, vers, cfgs):
+            steps = [dict(s, cfg=CONFIGS_WIDE[s["cfg"]]) for s in steps]
+            Session(w, steps, r).run()
+            sample = steps
+        r.sample = {"one_instance_session": sample, "rename_table": RENAMES}
+        return r
+    if kind == "table":
+        lines = [tuple(l) for l in item["lines"]]
+        for split in table_splits(lines):
+            run = run_table(lines, split, r)
+        r.sample = {
+            "rename_files": [run.w.versions["base"][f] for f in run.w.rename_files],
+            "effective_aliases": {a: list(t) for a, t in sorted(run.w.aliases.items())},
+            "history": [[v, cfg] for v, cfg in TABLE_HISTORY],
+        }
+        return r
     hist = [(v, CONFIGS_WIDE[c]) for v, c in item["history"]]
     run = Run(w, hist, r)
     run.crash_free()
@@ -549,9 +916,12 @@ def run_item(item) -> common.Result:
 
 def replay(case) -> List[dict]:
     r = common.Result()
-    w = World(case["versions"], case["aliases"])
+    w = World(case["versions"], case["aliases"], case.get("rename_files"))
+    if case.get("kind") == "session":
+        Session(w, [dict(s) for s in case["steps"]], r).run()
+        return r.viols
     hist = [(v, dict(cfg)) for v, cfg in case["history"]]
-    run = Run(w, hist, r)
+    run = Run(w, hist, r, case.get("sig_extra"))
     run.crash_free()
     if case.get("crash"):
         run.all_crashes(only=case["crash"])
